@@ -39,7 +39,8 @@ Definition pinned : list string := [
   "cookie.CookieRequest"; "cookie.CookieResponse"; "cookie.CookieStore";
   "config.ActiveFeatures"; "config.FinishedUpdate"; "config.StartUpdate"; "config.RegistrySync";
   "config.CodeOfConductPacket"; "config.CodeOfConductAcceptPacket"; "title.Times";
-  "plugin.Message"; "config.KnownPacks"; "packet.ServerLoginSuccess"; "playerinfo.Remove"
+  "plugin.Message"; "config.KnownPacks"; "packet.ServerLoginSuccess"; "playerinfo.Remove";
+  "packet.HeaderAndFooter"; "title.Text"; "title.Subtitle"; "title.Actionbar"
 ].
 
 Definition fragment_names : list string := map entry_name (filter is_fragment packets).
